@@ -890,6 +890,8 @@ class DnsRecordTxtValueSpf(ParsableBase, Serializable):
         terms = []
         while parser.unparsed_length:
             parser.parse_separator(' ')
+            if not parser.unparsed_length:
+                break
 
             try:
                 parser.parse_parsable('term', DnsRecordTxtValueSpfVariantParsable)
